@@ -84,26 +84,29 @@ Qed.
 (* ------------------------------------------------------------------------------------------------ *)
 (* 1. the decision does not change under removal *)
 
-Lemma stripped_rs : forall st pn x, stripped st pn (remove_stripped st x) = stripped st pn x.
-Proof. intros st pn x. destruct x; reflexivity. Qed.
+Lemma stripped_rs : forall st pk pk' x, stripped st pk (remove_stripped st pk' x) = stripped st pk x.
+Proof. intros st pk pk' x. destruct x; reflexivity. Qed.
 
-Lemma visible_rs : forall st pn x, visible st pn (remove_stripped st x) = visible st pn x.
-Proof. intros st pn x. unfold visible. rewrite stripped_rs. reflexivity. Qed.
+Lemma visible_rs : forall st pk pk' x, visible st pk (remove_stripped st pk' x) = visible st pk x.
+Proof. intros st pk pk' x. unfold visible. rewrite stripped_rs. reflexivity. Qed.
 
-Lemma is_text_rs : forall st x, is_text (remove_stripped st x) = is_text x.
-Proof. intros st x. destruct x; reflexivity. Qed.
+Lemma is_text_rs : forall st pk x, is_text (remove_stripped st pk x) = is_text x.
+Proof. intros st pk x. destruct x; reflexivity. Qed.
 
-Lemma is_elem_rs : forall st x, is_elem (remove_stripped st x) = is_elem x.
-Proof. intros st x. destruct x; reflexivity. Qed.
+Lemma is_elem_rs : forall st pk x, is_elem (remove_stripped st pk x) = is_elem x.
+Proof. intros st pk x. destruct x; reflexivity. Qed.
 
-Lemma test_node_rs : forall st t x, test_node t (remove_stripped st x) = test_node t x.
-Proof. intros st t x. destruct x; destruct t; reflexivity. Qed.
+Lemma test_node_rs : forall st pk t x, test_node t (remove_stripped st pk x) = test_node t x.
+Proof. intros st pk t x. destruct x; destruct t; reflexivity. Qed.
 
-Lemma stripped_no_strip : forall pn x, stripped no_strip pn x = false.
-Proof. intros pn x. destruct x; simpl; try reflexivity. apply andb_false_r. Qed.
+Lemma kids_key_rs : forall st pk pk' x, kids_key pk (remove_stripped st pk' x) = kids_key pk x.
+Proof. intros st pk pk' x. destruct x; reflexivity. Qed.
 
-Lemma visible_no_strip : forall pn x, visible no_strip pn x = true.
-Proof. intros pn x. unfold visible. rewrite stripped_no_strip. reflexivity. Qed.
+Lemma stripped_no_strip : forall pk x, stripped no_strip pk x = false.
+Proof. intros pk x. destruct x; simpl; try reflexivity. rewrite andb_false_r. reflexivity. Qed.
+
+Lemma visible_no_strip : forall pk x, visible no_strip pk x = true.
+Proof. intros pk x. unfold visible. rewrite stripped_no_strip. reflexivity. Qed.
 
 Lemma ctx_visible_no_strip : forall c, ctx_visible no_strip c = true.
 Proof. intros c. apply visible_no_strip. Qed.
@@ -111,59 +114,74 @@ Proof. intros c. apply visible_no_strip. Qed.
 Lemma keep_visible_no_strip : forall l, keep_visible no_strip l = l.
 Proof. intros l. apply filter_all_true. apply ctx_visible_no_strip. Qed.
 
-Lemma filter_visible_no_strip : forall pn l, filter (visible no_strip pn) l = l.
-Proof. intros pn l. apply filter_all_true. apply visible_no_strip. Qed.
+Lemma filter_visible_no_strip : forall pk l, filter (visible no_strip pk) l = l.
+Proof. intros pk l. apply filter_all_true. apply visible_no_strip. Qed.
+
+(* xml:space="preserve" in force: nothing is stripped, whatever the declarations *)
+Lemma stripped_preserve : forall st q x, stripped st (q, true) x = false.
+Proof. intros st q x. destruct x; simpl; try reflexivity. apply andb_false_r. Qed.
+
+(* the decision under a key = the inherited xml:space state, or the decision by the name alone *)
+Lemma visible_key_split : forall st n xs k, visible st (n, xs) k = xs || visible st (n, false) k.
+Proof.
+  intros st n xs k. unfold visible. destruct k; destruct xs; simpl; rewrite ?andb_false_r; reflexivity.
+Qed.
 
 (* ------------------------------------------------------------------------------------------------ *)
 (* strip_list *)
 
-Lemma strip_list_eq : forall st pn l,
-  strip_list st pn l = map (remove_stripped st) (filter (visible st pn) l).
+Lemma strip_list_eq : forall st pk l,
+  strip_list st pk l = map (remove_stripped st pk) (filter (visible st pk) l).
 Proof.
-  intros st pn l. unfold strip_list. rewrite filter_map_comm. f_equal.
+  intros st pk l. unfold strip_list. rewrite filter_map_comm. f_equal.
   apply filter_ext. intros x. apply visible_rs.
 Qed.
 
-Lemma strip_list_app : forall st pn a b,
-  strip_list st pn (a ++ b) = strip_list st pn a ++ strip_list st pn b.
-Proof. intros st pn a b. unfold strip_list. rewrite map_app, filter_app. reflexivity. Qed.
+Lemma strip_list_app : forall st pk a b,
+  strip_list st pk (a ++ b) = strip_list st pk a ++ strip_list st pk b.
+Proof. intros st pk a b. unfold strip_list. rewrite map_app, filter_app. reflexivity. Qed.
 
-Lemma strip_list_cons_vis : forall st pn k l, visible st pn k = true ->
-  strip_list st pn (k :: l) = remove_stripped st k :: strip_list st pn l.
-Proof. intros st pn k l H. unfold strip_list. simpl. rewrite visible_rs, H. reflexivity. Qed.
+Lemma strip_list_cons_vis : forall st pk k l, visible st pk k = true ->
+  strip_list st pk (k :: l) = remove_stripped st pk k :: strip_list st pk l.
+Proof. intros st pk k l H. unfold strip_list. simpl. rewrite visible_rs, H. reflexivity. Qed.
 
-Lemma strip_list_cons_invis : forall st pn k l, visible st pn k = false ->
-  strip_list st pn (k :: l) = strip_list st pn l.
-Proof. intros st pn k l H. unfold strip_list. simpl. rewrite visible_rs, H. reflexivity. Qed.
+Lemma strip_list_cons_invis : forall st pk k l, visible st pk k = false ->
+  strip_list st pk (k :: l) = strip_list st pk l.
+Proof. intros st pk k l H. unfold strip_list. simpl. rewrite visible_rs, H. reflexivity. Qed.
 
-Lemma strip_list_length : forall st pn l,
-  length (strip_list st pn l) = length (filter (visible st pn) l).
-Proof. intros st pn l. rewrite strip_list_eq. apply map_length. Qed.
+Lemma strip_list_length : forall st pk l,
+  length (strip_list st pk l) = length (filter (visible st pk) l).
+Proof. intros st pk l. rewrite strip_list_eq. apply map_length. Qed.
 
-Lemma rs_elem : forall st n a ks,
-  remove_stripped st (Elem n a ks) = Elem n a (strip_list st n ks).
+Lemma rs_elem : forall st pk n a ks,
+  remove_stripped st pk (Elem n a ks) = Elem n a (strip_list st (child_key pk n a) ks).
 Proof. reflexivity. Qed.
 
 (* ------------------------------------------------------------------------------------------------ *)
-(* 2. children *)
+(* 2. children (the children of x are removed with the key x looks at them with) *)
 
-Lemma rs_children : forall st x,
-  children no_strip (remove_stripped st x) = map (remove_stripped st) (children st x).
+Lemma rs_children : forall st pk x,
+  children no_strip pk (remove_stripped st pk x) =
+  map (remove_stripped st (kids_key pk x)) (children st pk x).
 Proof.
-  intros st x. destruct x; try reflexivity.
-  rewrite rs_elem. cbn [children]. rewrite filter_visible_no_strip. apply strip_list_eq.
+  intros st pk x. destruct x; try reflexivity.
+  rewrite rs_elem. cbn [children kids_key]. rewrite filter_visible_no_strip. apply strip_list_eq.
 Qed.
+
+Lemma rs_children_length : forall st pk x,
+  length (children no_strip pk (remove_stripped st pk x)) = length (children st pk x).
+Proof. intros st pk x. rewrite rs_children. apply map_length. Qed.
 
 (* ------------------------------------------------------------------------------------------------ *)
 (* a scheme for the observations defined by flat_map over the children *)
 
-Lemma flat_map_strip {B} (g h : node -> list B) st n ks :
-  Forall (fun k => stripped st n k = false -> g (remove_stripped st k) = h k) ks ->
-  (forall k, stripped st n k = true -> h k = []) ->
-  flat_map g (strip_list st n ks) = flat_map h ks.
+Lemma flat_map_strip {B} (g h : node -> list B) st pk ks :
+  Forall (fun k => stripped st pk k = false -> g (remove_stripped st pk k) = h k) ks ->
+  (forall k, stripped st pk k = true -> h k = []) ->
+  flat_map g (strip_list st pk ks) = flat_map h ks.
 Proof.
   intros HF Hs. induction HF as [|k r Hk _ IH]; [reflexivity|].
-  destruct (stripped st n k) eqn:E.
+  destruct (stripped st pk k) eqn:E.
   - rewrite strip_list_cons_invis by (unfold visible; rewrite E; reflexivity).
     simpl. rewrite (Hs k E). simpl. exact IH.
   - rewrite strip_list_cons_vis by (unfold visible; rewrite E; reflexivity).
@@ -173,15 +191,15 @@ Qed.
 (* ------------------------------------------------------------------------------------------------ *)
 (* 3. string-value *)
 
-Lemma sv_stripped : forall st pn k, stripped st pn k = true -> sv st pn k = [].
+Lemma sv_stripped : forall st pk k, stripped st pk k = true -> sv st pk k = [].
 Proof.
-  intros st pn k H. destruct k; simpl in *; try discriminate. rewrite H. reflexivity.
+  intros st pk k H. destruct k; simpl in *; try discriminate. rewrite H. reflexivity.
 Qed.
 
-Lemma rs_sv : forall st pn x, stripped st pn x = false ->
-  sv no_strip pn (remove_stripped st x) = sv st pn x.
+Lemma rs_sv : forall st pk x, stripped st pk x = false ->
+  sv no_strip pk (remove_stripped st pk x) = sv st pk x.
 Proof.
-  intros st pn x. revert pn. induction x using node_ind'; intros pn Hs.
+  intros st pk x. revert pk. induction x using node_ind'; intros pk Hs.
   - rewrite rs_elem. cbn [sv]. apply flat_map_strip.
     + eapply Forall_impl; [|exact H]. intros k Hk. apply Hk.
     + apply sv_stripped.
@@ -190,26 +208,26 @@ Proof.
   - reflexivity.
 Qed.
 
-Lemma rs_string_value : forall st pn x, stripped st pn x = false ->
-  string_value no_strip pn (remove_stripped st x) = string_value st pn x.
+Lemma rs_string_value : forall st pk x, stripped st pk x = false ->
+  string_value no_strip pk (remove_stripped st pk x) = string_value st pk x.
 Proof.
-  intros st pn x Hs. destruct x; try reflexivity.
+  intros st pk x Hs. destruct x; try reflexivity.
   - unfold string_value. rewrite rs_elem. rewrite <- rs_elem. apply rs_sv. exact Hs.
-  - apply (rs_sv st pn (Text data) Hs).
+  - apply (rs_sv st pk (Text data) Hs).
 Qed.
 
 (* ------------------------------------------------------------------------------------------------ *)
 (* 4. copy *)
 
-Lemma copy_events_stripped : forall st pn k, stripped st pn k = true -> copy_events st pn k = [].
+Lemma copy_events_stripped : forall st pk k, stripped st pk k = true -> copy_events st pk k = [].
 Proof.
-  intros st pn k H. destruct k; simpl in *; try discriminate. rewrite H. reflexivity.
+  intros st pk k H. destruct k; simpl in *; try discriminate. rewrite H. reflexivity.
 Qed.
 
-Lemma rs_copy_events : forall st pn x, stripped st pn x = false ->
-  copy_events no_strip pn (remove_stripped st x) = copy_events st pn x.
+Lemma rs_copy_events : forall st pk x, stripped st pk x = false ->
+  copy_events no_strip pk (remove_stripped st pk x) = copy_events st pk x.
 Proof.
-  intros st pn x. revert pn. induction x using node_ind'; intros pn Hs.
+  intros st pk x. revert pk. induction x using node_ind'; intros pk Hs.
   - rewrite rs_elem. cbn [copy_events]. f_equal. f_equal. apply flat_map_strip.
     + eapply Forall_impl; [|exact H]. intros k Hk. apply Hk.
     + apply copy_events_stripped.
@@ -219,64 +237,92 @@ Proof.
 Qed.
 
 (* ------------------------------------------------------------------------------------------------ *)
-(* 5. descendant-or-self *)
+(* 5. descendant-or-self.  Every descendant is removed with ITS OWN key (the key of its parent's
+   children), so the statement goes through [desc_keyed], the descendants paired with their keys *)
 
-Lemma dos_unfold : forall st pn x,
-  desc_or_self st pn x =
-  if stripped st pn x then [] else
+Lemma dos_unfold : forall st pk x,
+  desc_or_self st pk x =
+  if stripped st pk x then [] else
   x :: match x with
-       | Elem n _ ks => flat_map (desc_or_self st n) ks
+       | Elem n a ks => flat_map (desc_or_self st (child_key pk n a)) ks
        | _ => []
        end.
-Proof. intros st pn x. destruct x; reflexivity. Qed.
+Proof. intros st pk x. destruct x; reflexivity. Qed.
 
-Lemma dos_stripped : forall st pn k, stripped st pn k = true -> desc_or_self st pn k = [].
-Proof. intros st pn k H. rewrite dos_unfold, H. reflexivity. Qed.
+Lemma dk_unfold : forall st pk x,
+  desc_keyed st pk x =
+  if stripped st pk x then [] else
+  (pk, x) :: match x with
+             | Elem n a ks => flat_map (desc_keyed st (child_key pk n a)) ks
+             | _ => []
+             end.
+Proof. intros st pk x. destruct x; reflexivity. Qed.
 
-Lemma rs_desc_or_self : forall st pn x, stripped st pn x = false ->
-  desc_or_self no_strip pn (remove_stripped st x) =
-  map (remove_stripped st) (desc_or_self st pn x).
+Lemma dos_stripped : forall st pk k, stripped st pk k = true -> desc_or_self st pk k = [].
+Proof. intros st pk k H. rewrite dos_unfold, H. reflexivity. Qed.
+
+Lemma dk_stripped : forall st pk k, stripped st pk k = true -> desc_keyed st pk k = [].
+Proof. intros st pk k H. rewrite dk_unfold, H. reflexivity. Qed.
+
+(* the keyed list is the plain one with keys attached *)
+Lemma desc_keyed_nodes : forall st pk x, map snd (desc_keyed st pk x) = desc_or_self st pk x.
 Proof.
-  intros st pn x. revert pn. induction x using node_ind'; intros pn Hs;
-    rewrite (dos_unfold st), (dos_unfold no_strip), stripped_no_strip, Hs.
-  - rewrite rs_elem. cbn [map]. rewrite <- rs_elem. f_equal.
+  intros st pk x. revert pk. induction x using node_ind'; intros pk;
+    rewrite dk_unfold, dos_unfold; destruct (stripped st pk _); try reflexivity.
+  cbn [map snd]. f_equal. rewrite map_flat_map. apply flat_map_ext_Forall.
+  eapply Forall_impl; [|exact H]. intros k Hk. apply Hk.
+Qed.
+
+(* removal of a node with the key it is looked at with *)
+Definition rs_keyed (st : pred) (p : key * node) : node := remove_stripped st (fst p) (snd p).
+
+Lemma rs_desc_or_self : forall st pk x, stripped st pk x = false ->
+  desc_or_self no_strip pk (remove_stripped st pk x) =
+  map (rs_keyed st) (desc_keyed st pk x).
+Proof.
+  intros st pk x. revert pk. induction x using node_ind'; intros pk Hs;
+    rewrite (dk_unfold st), (dos_unfold no_strip), stripped_no_strip, Hs.
+  - rewrite rs_elem. cbn [map]. unfold rs_keyed at 1. cbn [fst snd]. rewrite <- rs_elem. f_equal.
     rewrite map_flat_map. apply flat_map_strip.
     + eapply Forall_impl; [|exact H]. intros k Hk. apply Hk.
-    + intros k Hk. rewrite dos_stripped by exact Hk. reflexivity.
+    + intros k Hk. rewrite dk_stripped by exact Hk. reflexivity.
   - reflexivity.
   - reflexivity.
   - reflexivity.
 Qed.
 
-Lemma rs_desc_or_self_length : forall st pn x, stripped st pn x = false ->
-  length (desc_or_self no_strip pn (remove_stripped st x)) = length (desc_or_self st pn x).
-Proof. intros st pn x Hs. rewrite rs_desc_or_self by exact Hs. apply map_length. Qed.
-
-Lemma rs_desc_or_self_texts : forall st pn x, stripped st pn x = false ->
-  length (filter is_text (desc_or_self no_strip pn (remove_stripped st x))) =
-  length (filter is_text (desc_or_self st pn x)).
+Lemma rs_desc_or_self_length : forall st pk x, stripped st pk x = false ->
+  length (desc_or_self no_strip pk (remove_stripped st pk x)) = length (desc_or_self st pk x).
 Proof.
-  intros st pn x Hs. rewrite rs_desc_or_self by exact Hs.
-  rewrite filter_map_comm, map_length. f_equal. apply filter_ext. intros y. apply is_text_rs.
+  intros st pk x Hs. rewrite rs_desc_or_self by exact Hs.
+  rewrite <- desc_keyed_nodes, !map_length. reflexivity.
+Qed.
+
+Lemma rs_desc_or_self_texts : forall st pk x, stripped st pk x = false ->
+  length (filter is_text (desc_or_self no_strip pk (remove_stripped st pk x))) =
+  length (filter is_text (desc_or_self st pk x)).
+Proof.
+  intros st pk x Hs. rewrite rs_desc_or_self by exact Hs. rewrite <- desc_keyed_nodes.
+  rewrite !filter_map_comm, !map_length. f_equal. apply filter_ext. intros y. apply is_text_rs.
 Qed.
 
 (* ------------------------------------------------------------------------------------------------ *)
 (* 6. removal with no declarations; removal twice *)
 
-Lemma rs_no_strip : forall x, remove_stripped no_strip x = x.
+Lemma rs_no_strip : forall pk x, remove_stripped no_strip pk x = x.
 Proof.
-  induction x using node_ind'; try reflexivity.
+  intros pk x. revert pk. induction x using node_ind'; intros pk; try reflexivity.
   simpl. rewrite filter_visible_no_strip. f_equal.
   induction H as [|k r Hk _ IH]; simpl; [reflexivity|]. rewrite Hk, IH. reflexivity.
 Qed.
 
-Lemma rs_idempotent : forall st x,
-  remove_stripped st (remove_stripped st x) = remove_stripped st x.
+Lemma rs_idempotent : forall st pk x,
+  remove_stripped st pk (remove_stripped st pk x) = remove_stripped st pk x.
 Proof.
-  intros st. induction x using node_ind'; try reflexivity.
-  rewrite rs_elem, rs_elem. f_equal.
+  intros st pk x. revert pk. induction x using node_ind'; intros pk; try reflexivity.
+  rewrite rs_elem, rs_elem. f_equal. set (ck := child_key pk n a).
   induction H as [|k r Hk _ IH]; [reflexivity|].
-  destruct (visible st n k) eqn:E.
+  destruct (visible st ck k) eqn:E.
   - rewrite (strip_list_cons_vis _ _ _ _ E).
     rewrite strip_list_cons_vis by (rewrite visible_rs; exact E).
     rewrite Hk, IH. reflexivity.
@@ -286,19 +332,19 @@ Qed.
 (* ------------------------------------------------------------------------------------------------ *)
 (* 7. axes *)
 
-Lemma picks_strip : forall st pn l pre post,
-  map (strip_ctx st) (filter (ctx_visible st) (picks pn pre l post)) =
-  picks pn (strip_list st pn pre) (strip_list st pn l) (strip_list st pn post).
+Lemma picks_strip : forall st pk l pre post,
+  map (strip_ctx st) (filter (ctx_visible st) (picks pk pre l post)) =
+  picks pk (strip_list st pk pre) (strip_list st pk l) (strip_list st pk post).
 Proof.
-  intros st pn l. induction l as [|k r IH]; intros pre post; [reflexivity|].
-  cbn [picks filter]. unfold ctx_visible at 1. cbn [c_pn c_self].
-  destruct (visible st pn k) eqn:E.
+  intros st pk l. induction l as [|k r IH]; intros pre post; [reflexivity|].
+  cbn [picks filter]. unfold ctx_visible at 1. cbn [c_pk c_self].
+  destruct (visible st pk k) eqn:E.
   - rewrite (strip_list_cons_vis _ _ _ _ E). cbn [map picks]. f_equal.
-    + unfold strip_ctx. cbn [c_pn c_before c_self c_after]. rewrite strip_list_app. reflexivity.
+    + unfold strip_ctx. cbn [c_pk c_before c_self c_after]. rewrite strip_list_app. reflexivity.
     + rewrite IH, strip_list_app, (strip_list_cons_vis _ _ k [] E). reflexivity.
   - rewrite (strip_list_cons_invis _ _ _ _ E).
     rewrite IH, strip_list_app, (strip_list_cons_invis _ _ k [] E).
-    change (strip_list st pn []) with (@nil node). rewrite app_nil_r. reflexivity.
+    change (strip_list st pk []) with (@nil node). rewrite app_nil_r. reflexivity.
 Qed.
 
 Lemma keep_visible_all : forall st l, Forall (fun c => ctx_visible st c = true) (keep_visible st l).
@@ -306,90 +352,91 @@ Proof.
   intros st l. apply Forall_forall. intros c Hc. apply filter_In in Hc. apply Hc.
 Qed.
 
-(* the inner loop of desc_ctxs_of as a function of its own *)
-Fixpoint desc_go (st : pred) (n : qname) (pre l : list node) : list ctx :=
+(* the inner loop of desc_ctxs_of as a function of its own (ck = the key of the children) *)
+Fixpoint desc_go (st : pred) (ck : key) (pre l : list node) : list ctx :=
   match l with
   | [] => []
   | k :: r =>
-      (if visible st n k
-       then {| c_pn := n; c_before := pre; c_self := k; c_after := r |} :: desc_ctxs_of st k
+      (if visible st ck k
+       then {| c_pk := ck; c_before := pre; c_self := k; c_after := r |} :: desc_ctxs_of st ck k
        else [])
-      ++ desc_go st n (pre ++ [k]) r
+      ++ desc_go st ck (pre ++ [k]) r
   end.
 
-Lemma desc_go_fix : forall st n ks pre,
+Lemma desc_go_fix : forall st ck ks pre,
   (fix go (pre l : list node) : list ctx :=
      match l with
      | [] => []
      | k :: r =>
-         (if visible st n k
-          then {| c_pn := n; c_before := pre; c_self := k; c_after := r |} :: desc_ctxs_of st k
+         (if visible st ck k
+          then {| c_pk := ck; c_before := pre; c_self := k; c_after := r |} :: desc_ctxs_of st ck k
           else [])
          ++ go (pre ++ [k]) r
-     end) pre ks = desc_go st n pre ks.
+     end) pre ks = desc_go st ck pre ks.
 Proof.
-  intros st n ks. induction ks as [|k r IH]; intros pre; [reflexivity|].
+  intros st ck ks. induction ks as [|k r IH]; intros pre; [reflexivity|].
   cbn [desc_go]. rewrite <- IH. reflexivity.
 Qed.
 
-Lemma desc_ctxs_of_elem : forall st n a ks, desc_ctxs_of st (Elem n a ks) = desc_go st n [] ks.
-Proof. intros st n a ks. exact (desc_go_fix st n ks []). Qed.
+Lemma desc_ctxs_of_elem : forall st pk n a ks,
+  desc_ctxs_of st pk (Elem n a ks) = desc_go st (child_key pk n a) [] ks.
+Proof. intros st pk n a ks. exact (desc_go_fix st (child_key pk n a) ks []). Qed.
 
-Lemma desc_go_strip : forall st n ks,
-  Forall (fun k => map (strip_ctx st) (desc_ctxs_of st k) =
-                   desc_ctxs_of no_strip (remove_stripped st k)) ks ->
+Lemma desc_go_strip : forall st ck ks,
+  Forall (fun k => forall pk, map (strip_ctx st) (desc_ctxs_of st pk k) =
+                   desc_ctxs_of no_strip pk (remove_stripped st pk k)) ks ->
   forall pre,
-  map (strip_ctx st) (desc_go st n pre ks) =
-  desc_go no_strip n (strip_list st n pre) (strip_list st n ks).
+  map (strip_ctx st) (desc_go st ck pre ks) =
+  desc_go no_strip ck (strip_list st ck pre) (strip_list st ck ks).
 Proof.
-  intros st n ks HF. induction HF as [|k r Hk _ IH]; intros pre; [reflexivity|].
+  intros st ck ks HF. induction HF as [|k r Hk _ IH]; intros pre; [reflexivity|].
   cbn [desc_go]. rewrite map_app, IH, strip_list_app.
-  destruct (visible st n k) eqn:E.
+  destruct (visible st ck k) eqn:E.
   - rewrite (strip_list_cons_vis _ _ k r E), (strip_list_cons_vis _ _ k [] E).
     cbn [desc_go]. rewrite visible_no_strip. cbn [map]. rewrite Hk. reflexivity.
   - rewrite (strip_list_cons_invis _ _ k r E), (strip_list_cons_invis _ _ k [] E).
-    change (strip_list st n []) with (@nil node). rewrite app_nil_r. reflexivity.
+    change (strip_list st ck []) with (@nil node). rewrite app_nil_r. reflexivity.
 Qed.
 
-Lemma desc_ctxs_strip : forall st x,
-  map (strip_ctx st) (desc_ctxs_of st x) = desc_ctxs_of no_strip (remove_stripped st x).
+Lemma desc_ctxs_strip : forall st pk x,
+  map (strip_ctx st) (desc_ctxs_of st pk x) = desc_ctxs_of no_strip pk (remove_stripped st pk x).
 Proof.
-  intros st. induction x using node_ind'; try reflexivity.
-  rewrite rs_elem, !desc_ctxs_of_elem. apply (desc_go_strip st n ks H []).
+  intros st pk x. revert pk. induction x using node_ind'; intros pk; try reflexivity.
+  rewrite rs_elem, !desc_ctxs_of_elem. apply (desc_go_strip st (child_key pk n a) ks H []).
 Qed.
 
-Lemma desc_go_visible : forall st n ks,
-  Forall (fun k => Forall (fun c => ctx_visible st c = true) (desc_ctxs_of st k)) ks ->
-  forall pre, Forall (fun c => ctx_visible st c = true) (desc_go st n pre ks).
+Lemma desc_go_visible : forall st ck ks,
+  Forall (fun k => forall pk, Forall (fun c => ctx_visible st c = true) (desc_ctxs_of st pk k)) ks ->
+  forall pre, Forall (fun c => ctx_visible st c = true) (desc_go st ck pre ks).
 Proof.
-  intros st n ks HF. induction HF as [|k r Hk _ IH]; intros pre; [constructor|].
+  intros st ck ks HF. induction HF as [|k r Hk _ IH]; intros pre; [constructor|].
   cbn [desc_go]. apply Forall_app. split; [|apply IH].
-  destruct (visible st n k) eqn:E; [|constructor].
-  constructor; [exact E|exact Hk].
+  destruct (visible st ck k) eqn:E; [|constructor].
+  constructor; [exact E|apply Hk].
 Qed.
 
-Lemma desc_ctxs_visible : forall st x,
-  Forall (fun c => ctx_visible st c = true) (desc_ctxs_of st x).
+Lemma desc_ctxs_visible : forall st pk x,
+  Forall (fun c => ctx_visible st c = true) (desc_ctxs_of st pk x).
 Proof.
-  intros st. induction x using node_ind'; try constructor.
+  intros st pk x. revert pk. induction x using node_ind'; intros pk; try constructor.
   rewrite desc_ctxs_of_elem. apply desc_go_visible. exact H.
 Qed.
 
 Lemma axis_equiv : forall st a c, ctx_visible st c = true ->
   map (strip_ctx st) (axis_ctxs st a c) = axis_ctxs no_strip a (strip_ctx st c).
 Proof.
-  intros st a c Hv. destruct c as [pn pre x post]. unfold ctx_visible in Hv. cbn [c_pn c_self] in Hv.
+  intros st a c Hv. destruct c as [pk pre x post]. unfold ctx_visible in Hv. cbn [c_pk c_self] in Hv.
   destruct a; cbn [axis_ctxs].
   - reflexivity.
-  - unfold child_ctxs. cbn [strip_ctx c_self c_pn c_before c_after].
+  - unfold child_ctxs. cbn [strip_ctx c_self c_pk c_before c_after].
     destruct x; try reflexivity.
     rewrite rs_elem, keep_visible_no_strip. unfold keep_visible. rewrite picks_strip. reflexivity.
-  - cbn [strip_ctx c_self c_pn c_before c_after]. apply desc_ctxs_strip.
-  - cbn [map]. f_equal. cbn [strip_ctx c_self c_pn c_before c_after]. apply desc_ctxs_strip.
-  - unfold following_sibling_ctxs. cbn [strip_ctx c_self c_pn c_before c_after].
+  - cbn [strip_ctx c_self c_pk c_before c_after]. apply desc_ctxs_strip.
+  - cbn [map]. f_equal. cbn [strip_ctx c_self c_pk c_before c_after]. apply desc_ctxs_strip.
+  - unfold following_sibling_ctxs. cbn [strip_ctx c_self c_pk c_before c_after].
     rewrite keep_visible_no_strip. unfold keep_visible. rewrite picks_strip.
     rewrite strip_list_app, (strip_list_cons_vis _ _ x [] Hv). reflexivity.
-  - unfold preceding_sibling_ctxs. cbn [strip_ctx c_self c_pn c_before c_after].
+  - unfold preceding_sibling_ctxs. cbn [strip_ctx c_self c_pk c_before c_after].
     rewrite keep_visible_no_strip. unfold keep_visible. rewrite picks_strip.
     rewrite (strip_list_cons_vis _ _ x post Hv). reflexivity.
 Qed.
@@ -436,7 +483,7 @@ Lemma step_equiv : forall st s c, ctx_visible st c = true ->
 Proof.
   intros st s c Hv. unfold eval_step. rewrite map_apply_pred. f_equal.
   rewrite <- (axis_equiv st _ c Hv). rewrite filter_map_comm. f_equal.
-  apply filter_ext. intros c'. destruct c' as [pn' pre' x' post']. cbn [strip_ctx c_self]. symmetry. apply test_node_rs.
+  apply filter_ext. intros c'. destruct c' as [pk' pre' x' post']. cbn [strip_ctx c_self]. symmetry. apply test_node_rs.
 Qed.
 
 Lemma step_visible : forall st s c, ctx_visible st c = true ->
@@ -474,15 +521,15 @@ Qed.
 Lemma observe_equiv : forall st c, ctx_visible st c = true ->
   observe st c = observe no_strip (strip_ctx st c).
 Proof.
-  intros st c Hv. destruct c as [pn pre x post]. unfold ctx_visible in Hv. cbn [c_pn c_self] in Hv.
-  assert (Hs : stripped st pn x = false).
-  { unfold visible in Hv. destruct (stripped st pn x); [discriminate|reflexivity]. }
-  unfold observe. cbn [strip_ctx c_self c_pn c_before c_after].
-  rewrite (rs_string_value st pn x Hs), (rs_copy_events st pn x Hs), rs_children,
-    (rs_desc_or_self_length st pn x Hs), (rs_desc_or_self_texts st pn x Hs).
+  intros st c Hv. destruct c as [pk pre x post]. unfold ctx_visible in Hv. cbn [c_pk c_self] in Hv.
+  assert (Hs : stripped st pk x = false).
+  { unfold visible in Hv. destruct (stripped st pk x); [discriminate|reflexivity]. }
+  unfold observe. cbn [strip_ctx c_self c_pk c_before c_after].
+  rewrite (rs_string_value st pk x Hs), (rs_copy_events st pk x Hs), rs_children,
+    (rs_desc_or_self_length st pk x Hs), (rs_desc_or_self_texts st pk x Hs).
   rewrite !filter_visible_no_strip, map_length, strip_list_length.
-  replace (strip_list st pn pre ++ remove_stripped st x :: strip_list st pn post)
-    with (strip_list st pn (pre ++ x :: post))
+  replace (strip_list st pk pre ++ remove_stripped st pk x :: strip_list st pk post)
+    with (strip_list st pk (pre ++ x :: post))
     by (rewrite strip_list_app, (strip_list_cons_vis _ _ x post Hv); reflexivity).
   rewrite strip_list_length. reflexivity.
 Qed.
@@ -490,42 +537,48 @@ Qed.
 (* ------------------------------------------------------------------------------------------------ *)
 (* 11. the whole observation language *)
 
-Lemma run_obs_equiv : forall st p d, visible st (0, 0)%N d = true ->
-  run_obs st p d = run_obs no_strip p (remove_stripped st d).
+Lemma run_obs_equiv : forall st p d, visible st root_key d = true ->
+  run_obs st p d = run_obs no_strip p (remove_stripped st root_key d).
 Proof.
   intros st p d Hv. unfold run_obs.
-  change (root_ctx (remove_stripped st d)) with (strip_ctx st (root_ctx d)).
+  change (root_ctx (remove_stripped st root_key d)) with (strip_ctx st (root_ctx d)).
   rewrite <- (path_equiv st p (root_ctx d) Hv). rewrite map_map.
   apply map_ext_F. eapply Forall_impl; [|apply (path_visible st p (root_ctx d) Hv)].
   intros c Hc. apply observe_equiv. exact Hc.
 Qed.
 
 Theorem strip_equiv_tree : forall st p n a ks,
-  run_obs st p (Elem n a ks) = run_obs no_strip p (remove_stripped st (Elem n a ks)).
+  run_obs st p (Elem n a ks) = run_obs no_strip p (remove_stripped st root_key (Elem n a ks)).
 Proof. intros st p n a ks. apply run_obs_equiv. reflexivity. Qed.
 
 (* ------------------------------------------------------------------------------------------------ *)
-(* 12. the Recommendation's removal (with xml:space) against the code's *)
+(* 12. the removal as modelled IS the Recommendation's removal (with xml:space) *)
 
-Lemma rec_remove_without_xml_space : forall st x, no_xml_space_preserve x = true ->
-  rec_remove st false x = remove_stripped st x.
+Theorem xml_space_rule_lemma : forall st q xs x,
+  remove_stripped st (q, xs) x = rec_remove st xs x.
 Proof.
-  intros st. induction x using node_ind'; intros Hx; try reflexivity.
-  cbn [no_xml_space_preserve] in Hx. apply andb_true_iff in Hx. destruct Hx as [Ha Hk].
-  apply negb_true_iff in Ha. cbn [rec_remove remove_stripped]. rewrite Ha.
-  change (fun k : node => false || visible st n k) with (visible st n). f_equal. f_equal.
-  rewrite forallb_forall in Hk. rewrite Forall_forall in H.
-  apply map_ext_in. intros k Hin. apply H; [exact Hin|apply Hk; exact Hin].
+  intros st q xs x. revert q xs. induction x using node_ind'; intros q xs; try reflexivity.
+  cbn [remove_stripped rec_remove]. unfold child_key. cbn [snd].
+  set (xs' := xml_space_of xs a). f_equal.
+  replace (map (rec_remove st xs') ks) with (map (remove_stripped st (n, xs')) ks)
+    by (apply map_ext_F; eapply Forall_impl; [|exact H]; intros k Hk; apply Hk).
+  apply filter_ext. intros k. apply visible_key_split.
 Qed.
 
-Lemma rec_remove_differs :
-  exists x, rec_remove (fun _ => true) false x <> remove_stripped (fun _ => true) x.
-Proof.
-  exists (Elem (0, 0)%N [((xml_ns, space_local), preserve_value)] [Text [32%N]]).
-  vm_compute. intros H. discriminate H.
-Qed.
+(* the removal looks at the inherited xml:space state of the key only, not at the name in it *)
+Lemma remove_stripped_key_name : forall st q q' xs x,
+  remove_stripped st (q, xs) x = remove_stripped st (q', xs) x.
+Proof. intros st q q' xs x. rewrite !xml_space_rule_lemma. reflexivity. Qed.
+
+Lemma remove_stripped_name_only : forall st q q' x, no_xml_space_preserve x = true ->
+  remove_stripped st (q, false) x = remove_stripped st (q', false) x.
+Proof. intros st q q' x _. apply remove_stripped_key_name. Qed.
+
+(* under a key with xml:space="preserve" in force every node is visible *)
+Lemma visible_preserve : forall st q k, visible st (q, true) k = true.
+Proof. intros st q k. unfold visible. rewrite stripped_preserve. reflexivity. Qed.
 
 Print Assumptions strip_equiv_tree.
-Print Assumptions rec_remove_without_xml_space.
-Print Assumptions rec_remove_differs.
+Print Assumptions xml_space_rule_lemma.
+Print Assumptions remove_stripped_name_only.
 Print Assumptions rs_idempotent.
